@@ -268,8 +268,14 @@ func (c *canceller) Preempt(ctx context.Context, req *jsonrpc.Request) (result a
 // Cancellation is driven by ctx: when it is cancelled, a background goroutine
 // sends a "notifications/cancelled" notification referencing the listen's
 // request ID and retires the call from the connection's outgoing-calls map.
-func callSubscriptionsListen(ctx context.Context, conn *jsonrpc2.Connection, method string, params Params) {
+func callSubscriptionsListen(ctx context.Context, conn *jsonrpc2.Connection, method string, params Params) error {
 	call := conn.Call(ctx, method, params)
+	// A call started on a connection that has already terminated (or is closing)
+	// is refused at once: report that, as every other call does, instead of
+	// pretending that a stream was opened.
+	if err := call.Err(); errors.Is(err, jsonrpc2.ErrClientClosing) || errors.Is(err, jsonrpc2.ErrServerClosing) {
+		return fmt.Errorf("%w: calling %q: %v", ErrConnectionClosed, method, err)
+	}
 
 	go func() {
 		// Await returns when ctx is cancelled, or when the call is over without
@@ -279,6 +285,7 @@ func callSubscriptionsListen(ctx context.Context, conn *jsonrpc2.Connection, met
 			_ = cancelCall(ctx, conn, call, params)
 		}
 	}()
+	return nil
 }
 
 // call executes and awaits a jsonrpc2 call on the given connection,
